@@ -72,6 +72,11 @@ def clause_props(K, clause, cfg):
     # must allocate exactly the public values its contract counts (none, except val/PubVal)
     if clause == "N.counts" and "C06" in K.tprops and K.layer == "gadget":
         out = out | {"C17"}
+    # ... and "returns the plain values the undecorated function would return": the undecorated function runs Python's
+    # arithmetic on plain numbers, the wrapped one the traced operations on secrets, so per operation this is its value
+    # and refusal facet (C05 for integers and booleans, C14 for fixed point), with the checks on and no guard
+    if clause[:2] in ("V.", "R.") and K.layer == "gadget" and mode == "plain" and ("C05" in K.vprops or "C14" in K.vprops):
+        out = out | {"C17"}
     return out
 
 
@@ -92,8 +97,8 @@ def select(prop):
         if prop == "C09" and prop not in ps and K.guard_relevant and ("C01" in K.cprops or "C06" in K.tprops):
             out.append((K, "CTNVR"))
             continue
-        if prop == "C17" and prop not in ps and "C06" in K.tprops and K.layer == "gadget":
-            out.append((K, "N"))
+        if prop == "C17" and prop not in ps and K.layer == "gadget" and ("C06" in K.tprops or "C05" in K.vprops or "C14" in K.vprops):
+            out.append((K, ("N" if "C06" in K.tprops else "") + ("VR" if ("C05" in K.vprops or "C14" in K.vprops) else "")))
             continue
         if prop in ps:
             out.append((K, getattr(K, "facets", None) or fac))
